@@ -234,7 +234,29 @@ def run(ctx: Ctx) -> None:
             items = any(isinstance(c.func, ast.Attribute) and c.func.attr == "items" and dotted(c.func.value) == "self" for c in calls_in(fn))
             tup = any(isinstance(r.value, ast.Tuple) and len(r.value.elts) == 5 for r in rets)
             ctx.check(uses_factory and same_class and items and tup, "K5", name, repo.loc("ordereddict", fn), "5-tuple with class, factory args and item iterator", f"__reduce__: factory kept={uses_factory}, same class={same_class}, items iterator={items}, 5-tuple={tup}")
-    ctx.units.update({"methods_evaluated": len(KEYED) * 2 + 5, "pai_paths": I.paths_run + I3.paths_run})
+    # evaluated: what pickle is told to rebuild the dictionary with
+    I6 = e.interp(allow_fork=False)
+    fac = SOpaque("object", "the-factory")
+
+    def mkd(f):
+        d = HDict()
+        d.pytype = CI  # type: ignore[misc]
+        d.ci = True
+        d.factory = f
+        d["k"] = SStr.atom("v")
+        return d
+
+    for f, label in ((fac, "with a default_factory"), (None, "without a default_factory")):
+        outs = I6.explore(f"{DD}.__reduce__", lambda f=f: (mkd(f), [], {}))
+        good = False
+        detail = f"{[(o.kind, o.exc, o.value) for o in outs]}"
+        if len(outs) == 1 and outs[0].kind == "return" and isinstance(outs[0].value, tuple) and len(outs[0].value) == 5:
+            cls_, args_, state_, li_, di_ = outs[0].value
+            items_ = list(I6.iter_values(di_)) if hasattr(I6, "iter_values") else None
+            good = isinstance(cls_, pai.FuncRef) and cls_.cls == CI and (tuple(args_) == ((fac,) if f is not None else ()) or (f is None and tuple(args_) == (None,))) and di_ is not None
+            detail = f"class {cls_!r}, constructor arguments {args_!r}"
+        ctx.check(good, "K5", f"__reduce__ {label}", repo.loc("ordereddict", dm.get("__reduce__") or meths.get("__reduce__")), detail, f"pickling a dictionary {label} rebuilds it from {detail}: the default_factory (and with it the auto-created lists and blocks) is lost, or the class / items are not carried")
+    ctx.units.update({"methods_evaluated": len(KEYED) * 2 + 7, "pai_paths": I.paths_run + I3.paths_run})
 
 
 def _flows_to_return(fn: ast.FunctionDef, calls: list) -> bool:
